@@ -283,6 +283,43 @@ def r_array(P, chk, only_units=None):
                 r = _check_copy(P, f, n, ub, chk, rid)
                 if r:
                     n_sites += 1
+            elif n["k"] == "CallExpr" and n.get("callee"):
+                # a fixed-size array handed to a first-party function: what that function does with the pointer must stay inside
+                h = P.resolve(f, n["callee"])
+                if h is None or not first_party_logic(P, h) or h.unit.base in ARRAY_SKIP_UNITS:
+                    continue
+                for ai, a in enumerate(n["c"][1:]):
+                    x = a
+                    while x is not None and x["k"] in ("ParenExpr", "CStyleCastExpr"):
+                        x = x["c"][0]
+                    if x is None or x["k"] != "ImplicitCastExpr" or x.get("ck") != "ArrayToPointerDecay" or not x["c"][0].get("asz") \
+                            or ai >= len(h.params):
+                        continue
+                    size = x["c"][0]["asz"]
+                    pn = h.params[ai][0]
+                    if "*" not in h.params[ai][1] or "va_list" in h.params[ai][1] or "__va" in h.params[ai][1]:
+                        continue
+                    hu = None
+                    for y in h.walk():
+                        if y["k"] != "ArraySubscriptExpr" or key(y["c"][0]) != pn:
+                            continue
+                        n_sites += 1
+                        cv = const_value(y["c"][1])
+                        if cv is not None:
+                            okp = 0 <= cv < size
+                            iv = (cv, cv)
+                        else:
+                            if hu is None:
+                                pc = {}
+                                hu = UB1(h, field_inv, assume=dict(param_ranges(P, h, field_inv, pc)))
+                            iv = hu.interval_at(y["c"][1], at=y)
+                            okp = iv is None or (iv[0] >= 0 and iv[1] <= size - 1)
+                        chk.obligation(rid, "%s %s: %s[%s] on the %d-element array %s passes as `%s`" % (
+                            h.where(y), h.name, pn, key(y["c"][1]), size, f.name, key(x["c"][0])), okp, sample=False)
+                        if not okp:
+                            chk.violation(rid, "%s:%s:%s[%s]:callee" % (h.base, h.name, pn, key(y["c"][1])), h.where(y),
+                                          "%s indexes its parameter `%s` with `%s` (range [%s, %s]), but %s passes the %d-element array "
+                                          "`%s` for it" % (h.name, pn, h.src(y["c"][1]), _fmt(iv[0]), _fmt(iv[1]), f.name, size, key(x["c"][0])))
     for rf, (res, where) in sorted(field_inv.used.items()):
         if res[1] < 2 ** 15:
             chk.notes.append("R-ARRAY field invariant %s.%s in [%s,%s] from its %d stores: %s" % (
@@ -2190,6 +2227,46 @@ def r_stalelen(P, chk):
                                       nm, obj, stale.get("callee"), f.where(stale), how))
     chk.floor(rid, n, 2, "length snapshots used as a buffer length")
     chk.analysed[rid] = {"checked_uses": n}
+
+
+def r_tokrange(P, chk):
+    """mmd_tokenize_string(e, start, len) scans e's text up to start + len.  If the text was edited (a call that may change
+    the length of e->dstr) after `len` was last assigned, the tokens run past - or stop short of - the source."""
+    from .rules_state import dstring_mutation_summary, DSTRING_MUTATORS
+    rid = "R-STALE/len"
+    mut = dstring_mutation_summary(P)
+    n = 0
+    for f in P.all_funcs:
+        if not P.first_party(f):
+            continue
+        pos = f.cfg.positions()
+        for T in f.calls("mmd_tokenize_string"):
+            if len(T["c"]) < 4 or T.get("i") not in pos:
+                continue
+            E = key(T["c"][1])
+            L = strip(T["c"][3])
+            if L is None or L["k"] != "DeclRefExpr":
+                continue              # e.g. e->dstr->currentStringLength itself
+            n += 1
+            lv = L["n"]
+            kills = [x for x in f.walk() if x["k"] == "BinaryOperator" and x["op"] == "=" and key(x["c"][0]) == lv and x.get("i") in pos]
+            bad = None
+            for c in f.calls():
+                cal = c.get("callee")
+                if not cal or c.get("i") not in pos or c is T:
+                    continue
+                args = c["c"][1:]
+                idxs = [0] if cal in DSTRING_MUTATORS else sorted(mut.get(P.fid(P.resolve(f, cal)), ())) if P.resolve(f, cal) is not None else []
+                if any(i < len(args) and key(args[i]) == E + "->dstr" for i in idxs) and _reaches(f, pos, c, T, kills):
+                    bad = c
+                    break
+            chk.obligation(rid, "%s %s: the length `%s` handed to mmd_tokenize_string is assigned after every edit of %s->dstr" % (
+                f.where(T), f.name, lv, E), bad is None)
+            if bad is not None:
+                chk.violation(rid, "stalelen:%s:%s:%s:tokenize" % (f.unit.base, f.name, lv), f.where(T),
+                              "%s tokenizes %s->dstr up to `%s`, which was last assigned before %s (line %d) changed the length of the "
+                              "text: tokens and the root no longer lie inside / span the source" % (f.name, E, lv, bad.get("callee"), bad["l"]))
+    chk.floor(rid, n, 1, "tokenizer calls with a length held in a variable")
 
 
 def _reaches(f, pos, a, b, cuts):
